@@ -314,6 +314,8 @@ func main() {
 	fragFacts(a)
 	// C01, parse-work clause: every write of a parser position (rewinds.go)
 	rewindFacts(a)
+	// C01, accepted-program-is-complete clause: pointer results converted to interface slots (typednil.go)
+	typedNilFacts(a)
 }
 
 func writeNats(sb *strings.Builder, name, doc string, xs []int) {
